@@ -217,9 +217,9 @@ def run(res, proof):
     # DomainS(...) as translated from the working tree (identifiers: Gen/PyDomain.lean, Singleton.__call__: Gen/PySingleton.lean, tied by a
     # hand-written fuel-bounded recursion in DriverDomain.lean) against the real class on the same op alphabet, after every step
     from .pydomain_stream import source_derived_pydomain
-    source_derived_pydomain(res, proof)
+    core.run_stream(source_derived_pydomain, res, proof)
     from .pymembers_stream import source_derived_pymembers
-    source_derived_pymembers(res, proof)
+    core.run_stream(source_derived_pymembers, res, proof)
 
 
 def replay(body, repo):
